@@ -93,8 +93,8 @@ type seqRun struct {
 	rng     *rand.Rand
 	held    []*heldView
 	failed  bool
-	// entries of the views fully checked since the last state change, by first
-	// slot: a later step that changed nothing and sees the very same entry
+	// entries of the views fully checked since the last state change, by (first
+	// slot, with/without overlay): a later step that changed nothing and sees the very same entry
 	// objects needs no second content / lookup / overlay pass
 	seen map[uint64][]*pending.PreConfirmed
 }
@@ -126,7 +126,11 @@ func (q *seqRun) checkView(stepIdx int, first uint64, want mChain, canon []*cano
 		q.r.Count("views_empty", 1)
 		return &view
 	}
-	if prev, ok := q.seen[first]; ok && len(prev) == len(entries) {
+	seenKey := first * 2
+	if withOverlay {
+		seenKey++
+	}
+	if prev, ok := q.seen[seenKey]; ok && len(prev) == len(entries) {
 		same := true
 		for i := range prev {
 			same = same && prev[i] == entries[i]
@@ -136,7 +140,7 @@ func (q *seqRun) checkView(stepIdx int, first uint64, want mChain, canon []*cano
 			return &view
 		}
 	}
-	q.seen[first] = entries
+	q.seen[seenKey] = entries
 	q.r.Count(fmt.Sprintf("view_length_%d", min(len(want), 6)), 1)
 	for i, e := range entries {
 		if p := compareEntry(e, want[i]); p != "" {
